@@ -8,6 +8,7 @@ import (
 	"encoding/xml"
 	"fmt"
 	dsig "github.com/russellhaering/goxmldsig"
+	"math"
 	"reflect"
 	"time"
 	_ "time/tzdata"
@@ -22,11 +23,13 @@ import (
 
 func init() {
 	register(&Prop{ID: "C19", Run: runC19, MinNontrivial: 300,
-		Rule:        "cases = (key configuration with an encryption key: 12 subsets of {enc field, enc setter, sign field, sign setter}, RSA/ECDSA signing setter) x SignAuthnRequests x SkipSignatureValidation x issuer/ACS/SLO strings from the value classes x clocks in several zones x validity hours {-5,0,1,24,168,8760,1e5,2.5e6}; oracle on Metadata() and MetadataWithSLO(h): entityID, POST endpoints, flags, validUntil == now.UTC()+7d or +h hours, signing descriptor verifies a message the SP just signed (C13 oracle), encryption descriptor's key decrypts an IdP-signed assertion encrypted to it under each listed method (C11 oracle through ValidateEncodedResponse), xml.Marshal output well-formed and round-trips to equal values; non-trivial = both metadata variants were produced; distinct by parameter tuple; every returned descriptor is scribbled over in place after its case; class bare-signing-key (signer without certificate: a published signing key must be the key that signs); arbitrary IdentityProviderSSO/SLOBinding values; SP clocks in the last week of the certificates' validity; bundle key stores (every published certificate is checked); metadata requested once before the final keys are set",
+		Rule:        "cases = (key configuration with an encryption key: 12 subsets of {enc field, enc setter, sign field, sign setter}, RSA/ECDSA signing setter) x SignAuthnRequests x SkipSignatureValidation x issuer/ACS/SLO strings from the value classes x clocks in several zones x validity hours {-5,0,1,24,168,8760,1e5,2.5e6, +-2562047, +-2562048, +-3e6, -5e6, +-1e7, 6e7, MinInt64, MinInt64+1}; oracle on Metadata() and MetadataWithSLO(h): entityID, POST endpoints, flags, validUntil == now.UTC()+7d or +h hours, signing descriptor verifies a message the SP just signed (C13 oracle), encryption descriptor's key decrypts an IdP-signed assertion encrypted to it under each listed method (C11 oracle through ValidateEncodedResponse), xml.Marshal output well-formed and round-trips to equal values; non-trivial = both metadata variants were produced; distinct by parameter tuple; every returned descriptor is scribbled over in place after its case; class bare-signing-key (signer without certificate: a published signing key must be the key that signs); arbitrary IdentityProviderSSO/SLOBinding values; SP clocks in the last week of the certificates' validity; bundle key stores (every published certificate is checked); metadata requested once before the final keys are set",
 		Assumptions: []string{"configurations without any encryption key are outside the domain (Metadata returns an error: the encryption key is documented as required)", "XMLName fields are ignored when comparing the round trip"}})
 }
 
-var c19Hours = []int64{-5, 0, 1, 24, 168, 8760, 100000, 2500000}
+// requested validities: negative ones (of any magnitude) and zero mean the default; the large ones lie on both sides of
+// what a time.Duration can express (2 562 047 hours) and stay below the year 9999
+var c19Hours = []int64{-5, 0, 1, 24, 168, 8760, 100000, 2500000, -2562048, 2562047, -3000000, 2562048, -5000000, 3000000, -10000000, 10000000, math.MinInt64, 60000000, math.MinInt64 + 1, -2562047}
 
 func zeroXMLNames(v reflect.Value) {
 	switch v.Kind() {
@@ -203,7 +206,10 @@ func runC19(c *mon.Ctx) {
 		wantUntil := now.UTC().Add(7 * 24 * time.Hour)
 		wantUntil2 := wantUntil
 		if hours > 0 {
-			wantUntil2 = now.UTC().Add(time.Duration(hours) * time.Hour)
+			wantUntil2 = now.UTC()
+			for h := hours; h > 0; h -= min(h, 1000000) {
+				wantUntil2 = wantUntil2.Add(time.Duration(min(h, 1000000)) * time.Hour)
+			}
 		}
 		bad := false
 		fail := func(key, format string, a ...any) {
